@@ -42,6 +42,14 @@ async def plain_history():
                     return {"failure": "consumer did not get the next token in put order", "consumer": c, "position": k,
                             "got": (got.tag, got.value), "expected": (model[k].tag, model[k].value), "kind": kind}
                 seen[c] = k + 1
+            elif rng.random() < 0.35:
+                # nothing to read yet: the consumer waits, and its pending get() is cancelled (a timeout, a cancelled step); it must
+                # not cost the consumer any later token
+                try:
+                    await asyncio.wait_for(port.get(c), 0.005)
+                    return {"failure": "get() returned although every token had been delivered to this consumer", "consumer": c, "kind": kind}
+                except asyncio.TimeoutError:
+                    pass
     if [id(t) for t in port.token_list] != [id(t) for t in model]:
         return {"failure": "token_list is not the admitted tokens in put order", "kind": kind}
     for c in consumers + ["late"]:
